@@ -152,6 +152,11 @@ pub fn build_proof(r: &mut Rng, pool: &Pool, tab: &mut SigTab, s: &SSet, domain:
                 let mut acc2 = BigUint::from(0u32);
                 for i in (0..n).rev() { if acc2 >= s.threshold { break; } sigs[i] = Some(sign(tab, skey(i), &d)); acc2 += &s.signers[i].weight; }
                 label = "quorum_from_the_end"; }
+        17 => { // only the LAST member signs: its weight alone is (usually) below the threshold, the positional prefix is not
+                if n > 0 { sigs[n - 1] = Some(sign(tab, skey(n - 1), &d)); } label = "last_signer_only"; }
+        18 => { // one signature missing somewhere before the last signed position
+                for i in 0..n { sigs[i] = Some(sign(tab, skey(i), &d)); }
+                if n > 1 { let k = r.below((n - 1) as u64) as usize; sigs[k] = None; } label = "gap_before_last"; }
         _ => { for &i in &quorum { sigs[i] = Some(sign(tab, skey(i), &d)); }
                // a bad option tag
                label = "minimal_quorum"; }
@@ -262,7 +267,7 @@ pub fn run(seed: u64, ntraces: usize) {
                 if r.chance(1, 15) { raw.push(7); mlabel = "batch_trailing_byte"; }
                 if r.chance(1, 20) && !raw.is_empty() { raw.truncate(raw.len() - 1); mlabel = "batch_truncated"; }
                 let (slabel, set) = g.pick_set(&mut r);
-                let variant = if r.chance(1, 2) { r.below(2) } else { r.below(17) };
+                let variant = if r.chance(1, 2) { r.below(2) } else { r.below(19) };
                 let G { pool, tab, domain, .. } = &mut g;
                 let p = build_proof(&mut r, pool, tab, &set, domain, 0, &raw, variant);
                 let caller = r.pick(&callers).clone();
@@ -275,7 +280,7 @@ pub fn run(seed: u64, ntraces: usize) {
                 let mut raw = newset.encode(0);
                 if r.chance(1, 20) { raw.push(0); }
                 let (slabel, set) = g.pick_set(&mut r);
-                let variant = if r.chance(2, 3) { r.below(2) } else { r.below(17) };
+                let variant = if r.chance(2, 3) { r.below(2) } else { r.below(19) };
                 let G { pool, tab, domain, .. } = &mut g;
                 let p = build_proof(&mut r, pool, tab, &set, domain, 1, &raw, variant);
                 let caller = if r.chance(1, 2) { g.operator.clone() } else { r.pick(&callers).clone() };
